@@ -170,6 +170,20 @@ def guarded(fn, *a):
 
 
 # ------------------------------------------------------------------ C13
+ID_BASES = (1, 1, 7, 93, 997, 1)
+
+
+def reset_state_ids(t, s):
+    """Automaton states are numbered from a process-wide counter; the first patterns compiled in a process get the smallest
+    numbers. Every case starts from a small base (mostly 1, also just below 10 / 100 / 1000) so that the numbering a fresh
+    process would produce is among the explored ones."""
+    try:
+        from codelimit.common.gsm.automata.State import State
+        State._id = ID_BASES[(len(s) + len(str(t))) % len(ID_BASES)]
+    except Exception:  # noqa
+        pass
+
+
 def check_c13(t, seqs):
     from codelimit.common.gsm.matcher import match, starts_with, nfa_match
     from codelimit.common.gsm.Expression import expression_to_nfa, nfa_to_dfa
@@ -179,6 +193,7 @@ def check_c13(t, seqs):
     if st != "ok":
         return [("build-" + st, f"building the matcher for {show(t)}: {st}", [])]
     for s in seqs:
+        reset_state_ids(t, s)
         exp = ref_match(t, s)
         st, r = guarded(lambda: match(expr, list(s)) is not None)
         if st != "ok" or r != exp:
@@ -223,6 +238,7 @@ def check_c14(t, seqs):
     fails = []
     expr = build(t)
     for s in seqs:
+        reset_state_ids(t, s)
         st, ms = guarded(lambda: find_all(expr, list(s)))
         if st != "ok":
             fails.append(("find_all-" + st, f"{show(t)} on {list(s)}: {st} {ms}", list(s)))
@@ -384,6 +400,23 @@ def chunk_work(job):
             for kind, what, s in fs[:2]:
                 out["failures"].append({"name": f"{prop}:{kind}", "what": what, "case": {"tree": t, "sequence": s},
                                         "tags": sorted(tags_of(t))})
+    except Exception:
+        out["fault"] = traceback.format_exc()[-800:]
+    return out
+
+
+def long_work(job):
+    prop, items = job
+    out = {"evaluations": 0, "failures": [], "distinct": 0}
+    try:
+        for t, seqs in items:
+            if prop != "C13" and nullable(t):
+                continue
+            out["distinct"] += 1
+            out["evaluations"] += len(seqs)
+            fs = check_c13(t, seqs) if prop == "C13" else check_c14(t, seqs)
+            for kind, what, s in fs[:2]:
+                out["failures"].append({"name": f"{prop}:{kind}", "what": what, "case": {"tree": t, "sequence": s}, "tags": sorted(tags_of(t))})
     except Exception:
         out["fault"] = traceback.format_exc()[-800:]
     return out
@@ -554,9 +587,36 @@ def main():
         l, r = rand_tree(a), rand_tree(max(1, n - 1 - a))
         return ("alt", l, r) if k == "alt" else ("seq", [l, r])
     all_trees += [rand_tree(rnd.randint(5, 8)) for _ in range(100 if tier == "quick" else 1000)]
+    # long patterns (9..13 nodes) on words drawn from their own language and near misses: enough automaton states for the state
+    # numbering to reach two digits when it starts at 1
+    def word(t):
+        k = t[0]
+        if k == "atom":
+            return [t[1]]
+        if k == "seq":
+            return [x for p_ in t[1] for x in word(p_)]
+        if k == "alt":
+            return word(rnd.choice(t[1:]))
+        if k == "opt":
+            return word(t[1]) if rnd.random() < 0.5 else []
+        reps = rnd.randint(0 if k == "star" else 1, 2)
+        return [x for _ in range(reps) for x in word(t[1])]
+    long_jobs = []
+    for _ in range(120 if tier == "quick" else 1200):
+        t = rand_tree(rnd.randint(9, 13))
+        ws = set()
+        for _k in range(12):
+            w = word(t)[:9]
+            ws.add(tuple(w))
+            if w:
+                i = rnd.randrange(len(w))
+                ws.add(tuple(w[:i] + w[i + 1:]))
+                ws.add(tuple(w[:i] + [rnd.choice(ALPHA)] + w[i:]))
+        long_jobs.append((t, sorted(ws)))
     chunks = [all_trees[i::32] for i in range(32)]
     with Pool(min(16, os.cpu_count() or 2)) as pool:
         results = pool.map(chunk_work, [(prop, c, maxlen) for c in chunks])
+        results += pool.map(long_work, [(prop, long_jobs[i::16]) for i in range(16)])
     fails = [f for r in results for f in r["failures"]]
     extra_n = 0
     if prop == "C14":
